@@ -32,12 +32,17 @@ def assigned_names(body):
     return names
 
 
+MUTATING_METHODS = {'add', 'discard', 'remove', 'pop', 'popitem', 'clear', 'update', 'setdefault', 'append', 'extend', 'insert',
+                    'sort', 'reverse', 'difference_update', 'intersection_update'}
+
+
 def mutated_names(body):
     """locals whose container value is updated in place (x.add(..), x[k] = .., x |= ..)"""
     names = set()
     for stmt in body:
         for n in ast.walk(stmt):
-            if isinstance(n, ast.Call) and isinstance(n.func, ast.Attribute) and isinstance(n.func.value, ast.Name):
+            if (isinstance(n, ast.Call) and isinstance(n.func, ast.Attribute) and isinstance(n.func.value, ast.Name)
+                    and n.func.attr in MUTATING_METHODS):
                 names.add(n.func.value.id)
             if isinstance(n, (ast.Subscript,)) and isinstance(n.ctx, (ast.Store, ast.Del)) and isinstance(n.value, ast.Name):
                 names.add(n.value.id)
@@ -64,20 +69,49 @@ class LoopCtx:
     def entry_local(self, name): return self.entry.st.env.get(name)
 
 
-def havoc_loop(ex, st, body, extra_names=()):
-    """forget everything an arbitrary number of iterations may have changed"""
+def havoc_loop(ex, st, body, extra_names=(), bind=None):
+    """forget everything an arbitrary number of iterations may have changed.  The set of heap components (and
+    whether the trace) can change is found by a fixpoint: havoc W, run the body once from there (obligations
+    discarded), add whatever differs afterwards, repeat until stable.  `bind(state)` prepares one iteration
+    (loop variable) and returns the states in which the body starts."""
+    names = assigned_names(body) | mutated_names(body) | set(extra_names)
+    W = {FIELD_ALIAS.get(f, f) for f in stored_fields(body) if FIELD_ALIAS.get(f, f) in FIELDS}
+    trace = False
+    for _round in range(6):
+        h = _havoc(st, names, W, trace)
+        n_ob = len(ex.obligations)
+        saved = (ex.unreachable, ex.feas_checks)
+        ex.discovery = getattr(ex, 'discovery', 0) + 1
+        try:
+            starts = bind(h.copy()) if bind else [h.copy()]
+            ends = []
+            for s0 in starts:
+                ends.extend(s for s, fl in ex.run_block(body, s0))
+        finally:
+            ex.discovery -= 1
+            del ex.obligations[n_ob:]
+        W2, trace2 = set(W), trace
+        for e in ends:
+            for comp, arr in e.heap.items():
+                base = h.heap.get(comp)
+                if base is None or not arr.eq(base): W2.add(comp.split('#')[0])
+            if not (e.tr.eq(h.tr) and e.tn.eq(h.tn)): trace2 = True
+        if W2 == W and trace2 == trace: break
+        W, trace = W2, trace2
+    else:
+        raise Unsupported('loop frame discovery did not converge')
+    return _havoc(st, names, W, trace)
+
+
+def _havoc(st, names, fields, trace):
     h = st.copy()
-    for name in (assigned_names(body) | mutated_names(body) | set(extra_names)):
+    for name in names:
         v = h.env.get(name)
         if v is None: continue
         h.env[name] = refresh(v, name)
-    fields = set(ex.spec.contract.modifies) | {FIELD_ALIAS.get(f, f) for f in stored_fields(body)}
-    for f in fields:
-        if f == 'trace': h.havoc_trace()
-        elif f.startswith('ghost:'):
-            g = h.ghost.get(f[6:])
-            if g is not None: h.ghost[f[6:]] = refresh(g, f[6:]) if isinstance(g, PV) else fresh(f[6:], g.sort())
-        elif f in FIELDS: h.havoc_field(f)
+    for f in sorted(fields):
+        if f in FIELDS: h.havoc_field(f)
+    if trace: h.havoc_trace()
     return h
 
 
@@ -184,7 +218,12 @@ def for_seq(ex, s, st, it):
     elem = it.elem if isinstance(it, PSeq) else 'val'
     pre = ex.spec.pre_view
     _oblige_inv(ex, key, 'establish', st, LoopCtx(key, st, st, pre, i=IntVal(0), n=n, arr=arr), inv)
-    h = havoc_loop(ex, st, s.body, extra_names=assigned_names([ast.Expr(s.target)]) | _target_names(s.target))
+    elem0 = it.elem if isinstance(it, PSeq) else 'val'
+    def bind(h0):
+        i0 = fresh('i', IntSort()); h0.assume(0 <= i0, i0 < n)
+        item0 = ZV('ref', Val.ref(arr[i0]), elem0[4:]) if elem0.startswith('ref:') else ZV('val', arr[i0])
+        return [s2 for s2, f2 in ex.assign(h0, s.target, item0)]
+    h = havoc_loop(ex, st, s.body, extra_names=_target_names(s.target), bind=bind)
     i = fresh('i', IntSort())
     h.assume(0 <= i, i <= n)
     _assume_inv(h, LoopCtx(key, st, h, pre, i=i, n=n, arr=arr), inv)
@@ -216,7 +255,11 @@ def for_set(ex, s, st, it, item_of=None):
     pre = ex.spec.pre_view
     dom = it.arr.sort().domain()
     _oblige_inv(ex, key, 'establish', st, LoopCtx(key, st, st, pre, done=K(dom, BoolVal(False)), S=it.arr), inv)
-    h = havoc_loop(ex, st, s.body, extra_names=_target_names(s.target))
+    def bind(h0):
+        x0 = fresh('x', dom); h0.assume(it.arr[x0])
+        item0 = item_of(x0) if item_of else ZV('ref', x0) if it.ekind == 'ref' else ZV('val', x0) if it.ekind == 'val' else ZV('str', x0)
+        return [s2 for s2, f2 in ex.assign(h0, s.target, item0)]
+    h = havoc_loop(ex, st, s.body, extra_names=_target_names(s.target), bind=bind)
     done = fresh('done', it.arr.sort())
     e = fresh('e', dom)
     h.assume(ForAll([e], Implies(done[e], it.arr[e])))
